@@ -104,6 +104,25 @@ Section Recorded.
   Proof. exact (pushed_recorded srv srv_accepted). Qed.
 End Recorded.
 
+Section NoSpuriousRejection.
+  Context (anc : N -> N -> bool) (auto : bool) (srv : N -> N -> N -> bool * N).
+
+  (** After a fetch the target of every remote-tracking bookmark is the remote's value. *)
+  Theorem C45_fetch_records_remote : forall (v : jview) (remote : gmap) (n : N),
+    r_target (rget (j_remote (fst (fetch anc auto v remote))) n) = resolved (gget remote n).
+  Proof. exact (fetch_records_remote anc auto). Qed.
+
+  Hypothesis srv_complete : forall cur v, fst (srv cur cur v) = true.
+
+  (** The lease never rejects without cause: if jj's records equal the remote (as after a
+      fetch with no external update since), a push rejects nothing. *)
+  Theorem C45_no_spurious_rejection : forall (v : jview) (remote backing : gmap) (names : list N),
+    NoDup names ->
+    (forall n, r_target (rget (j_remote v) n) = resolved (gget remote n)) ->
+    q_rejected (push srv v remote backing names) = [].
+  Proof. exact (push_with_current_records srv srv_complete). Qed.
+End NoSpuriousRejection.
+
 (** The observed behaviour of git satisfies the assumed contract. *)
 Theorem C45_git_contract : forall cur e v,
   (snd (git_srv cur e v) <> cur ->
@@ -170,4 +189,5 @@ Print Assumptions C45_stale_push_untouched.
 Print Assumptions C45_every_remote_change_attributed.
 Print Assumptions C45_pushed_recorded.
 Print Assumptions C45_model_passes_checker.
+Print Assumptions C45_no_spurious_rejection.
 Print Assumptions C45_agreement_implies_property.
